@@ -50,6 +50,8 @@ func init() {
 			{ID: "C10.R25", Text: "Couchbase membership, the numbering step evaluated whole (1..3 live instances, every equality pattern of their ids with this member's id): own number = position of the first instance carrying this member's id, group size = length of the list; announced ⇔ different from the numbering in effect; the list is recorded; a list without this member stops the client", Run: cbmNumbering},
 			{ID: "C10.R26", Text: "a peer identity that cannot be read is fatal on the branch on which reading it failed (members never number themselves against a half-read identity)", Run: identityParse},
 			{ID: "C10.R27", Text: "who counts as live: the comparison isAlive returns, with every operand moved to one side, reads interval + tolerance + lastHeartbeat − now > 0 (linear form of the SSA expression: indifferent to operand order, mirroring and temporaries; decides the sign structure, not the timing)", Run: livenessTest},
+			{ID: "C10.R28", Text: "join order is well defined: every join time the library creates is time.Now().UnixNano() and every other store into a ClusterJoinTime field is a copy of one (a coarser reading makes members tie and swap numbers between rounds)", Run: joinTimeResolution},
+			{ID: "C10.R29", Text: "announcements are applied in the order they were made: every Publish on the membership topic is a plain synchronous call, never go/defer", Run: publishSynchronous},
 			{ID: "C10.R5", Text: "Couchbase membership: lastActiveInstances is written only in the numbering step after the publish decision; on CAS mismatch the round is restarted (monitor re-entered), nothing is rewritten", Run: c10r5},
 		},
 	})
